@@ -505,3 +505,12 @@ Proof.
   destruct IH as [IH1 IH2]. split; [|exact IH2]. constructor; [|exact IH1].
   destruct res as [x|b]; [|left; eauto]. destruct (X x eq_refl) as ([-> | ->] & _); right; auto.
 Qed.
+
+(* ---------- every environment: whatever is raised wherever, the configuration left behind is good ---------- *)
+Theorem any_env_good hm ev c e p f tr f' r : wf_defs hm = true -> good hm f ->
+  trigger_event hm ev c e p f = (tr, f', r) -> good hm f'.
+Proof.
+  intros WF [U RG] H. pose proof (trigger_event_reach hm ev c e p f tr f' r H) as R. split.
+  - eapply reach_uniq; eauto.
+  - eapply reach_reg; eauto.
+Qed.
